@@ -171,6 +171,9 @@ func restore(cfg Cfg, r io.Reader) (in *Inst, n int, err error, perr error) {
 		return &Inst{Cfg: cfg, P: p}, int(n64), nil, nil
 	}
 	m := u.NewMapPollard(cfg.Full)
+	if cfg.Ext {
+		extStores(&m)
+	}
 	k, e := m.Read(r)
 	if e != nil {
 		return nil, k, e, nil
